@@ -362,6 +362,9 @@ func (ex *Exec) decide(c *Term) bool {
 		}
 		return b
 	}
+	if ex.Trace {
+		fmt.Printf("DECIDE %s\n", ex.where())
+	}
 	rt := ex.check(c)
 	var rf Result
 	if rt == Unsat {
